@@ -13,6 +13,7 @@ func init() {
 			return
 		}
 		pe := newPathExplorer(p, fn)
+		pe.Inline = true
 		for _, pth := range pe.Paths() {
 			fmt.Printf("%s => %T\n   %s\n", shortPath(pth), pth.End(), pth.String())
 		}
